@@ -22,7 +22,7 @@ ASSUMPTIONS = ["with a repeated heading text only conservation of the ACE multis
                "(C15's wording); remarks may merge", "TCAM formula as stated in C15"]
 REQUIRED = ["grouped_2plus_blocks", "text_unchanged_by_group_ungroup", "permutation_moved_block",
             "sort_restored", "tcam_with_group_members", "heading_only_block", "no_leading_heading",
-            "mixed_list_regrouped", "marker_blocks", "indent_blocks", "refused_group_left_acl_unchanged"]
+            "mixed_list_regrouped", "marker_blocks", "indent_blocks", "refused_group_left_acl_unchanged", "foreign_ok"]
 PREFIXES = ["= ", "=", "x", ""]
 
 
@@ -71,6 +71,7 @@ def units(tier, seed):
     for ii in range(len(INDENTS)):
         out.append(dict(kind="indents", indent=ii))
     out.append(dict(kind="refused"))
+    out.append(dict(kind="foreign"))
     for a in range(n):
         for b in range(n):
             out.append(dict(first=[a, b]))
@@ -89,6 +90,9 @@ def run_unit(unit, ctx):
         return
     if unit.get("kind") == "refused":
         _refused(ctx)
+        return
+    if unit.get("kind") == "foreign":
+        _foreign(ctx)
         return
     if unit.get("kind") == "indents":
         # the indentation setting is part of the text that grouping must leave unchanged
@@ -109,6 +113,65 @@ def run_unit(unit, ctx):
                     continue
                 script(first + rest, p, ctx, "ios" if (sum(rest) + pi) % 3 else "nxos")
     ctx.sample("acl", dict(idx=list(first + rest)))
+
+
+def _foreign(ctx):
+    """Entries that came from elsewhere: an entry whose own numeric switches differ from the
+    ACL's, and one entry OBJECT appended to two blocks - grouping and ungrouping still neither
+    change the text nor lose an entry."""
+    from cisco_acl import Ace
+
+    its = items(ctx.seed)
+    for plat in ("ios", "nxos"):
+        for ln in (1, 2, 3, 4):
+            for idx in product(MARK_SUB, repeat=ln):
+                lst = [its[i] for i in idx]
+                if not any(i.is_ace for i in lst):
+                    continue
+                heads = [i.remark for i in lst if not i.is_ace and i.remark.startswith("= ")]
+                if len(set(heads)) != len(heads):
+                    continue
+                for switch in ("port_nr", "protocol_nr"):
+                    ctx.ev()
+                    case = dict(kind="foreign", platform=plat, idx=list(idx), switch=switch)
+                    try:
+                        acl = PR.build_acl(lst, plat)
+                        for o in acl.items:
+                            if isinstance(o, Ace):
+                                setattr(o, switch, True)
+                        text0 = acl.line
+                        acl.group("= ")
+                        t1 = acl.line
+                        acl.ungroup()
+                        t2 = acl.line
+                    except Exception as ex:  # noqa
+                        ctx.viol("foreign:exception", case, repr(ex), "group/ungroup succeed")
+                        continue
+                    if (t1, t2) != (text0, text0):
+                        ctx.viol("Acl.group:text_changed_for_entries_with_own_switches", case, (t1, t2), text0)
+                    else:
+                        ctx.out("foreign_ok")
+                if len(heads) >= 2:
+                    ctx.ev()
+                    case = dict(kind="foreign", platform=plat, idx=list(idx), shared_object=True)
+                    try:
+                        acl = PR.build_acl(lst, plat, group_by="= ")
+                        blocks_ = [o for o in acl.items if hasattr(o, "items") and not isinstance(o, Ace)]
+                        shared = Ace("permit icmp any any", platform=plat)
+                        n0 = len(PR.flat_lines(acl))
+                        blocks_[0].append(shared)
+                        blocks_[-1].append(shared)
+                        grouped = PR.flat_lines(acl)
+                        acl.ungroup()
+                        flat = PR.flat_lines(acl)
+                    except Exception as ex:  # noqa
+                        ctx.viol("foreign:shared_exception", case, repr(ex), "ungroup succeeds")
+                        continue
+                    if len(grouped) != n0 + 2 or flat != grouped:
+                        ctx.viol("Acl.ungroup:entry_held_by_two_blocks_lost", case, flat, grouped)
+                    else:
+                        ctx.out("foreign_ok")
+    ctx.sample("foreign", dict(switches=["port_nr", "protocol_nr"]))
 
 
 def _refused(ctx):
